@@ -34,7 +34,7 @@ impl C03 {
                     let out = self.drv.run_enc(&case, ev);
                     if tr { println!("TRACE {} | calls: {} | items: [{}] bytes={} | model: [{}]", case.describe(), fmt_calls(&out.calls), fmt_eitems(&out.items), hex(&out.bytes), fmt_eitems(&model)); }
                     ev.count(if repl { "model-diff.ncr-bytes" } else { "model-diff.bytes+unmappables" });
-                    let key = |k: &str| format!("{}:{}:{}", enc.output_encoding().name(), if src16 { "utf16" } else { "utf8" }, k);
+                    let key = |k: &str| format!("{}:{}:{}", crate::c01::ofam(enc), if src16 { "utf16" } else { "utf8" }, k);
                     if let Some(f) = out.fail_of(&[FailKind::Panic, FailKind::Stuck]) { ev.violation("model-diff", &key(&format!("{:?}", f.0)), format!("text could not be encoded: {:?} {} | {}", f.0, f.1, case.describe())); continue; }
                     if repl {
                         if out.bytes != mbytes { ev.violation("model-diff", &key("ncr-bytes"), format!("encoder output (with replacement) differs from the Standard: got {} expected {} | {}", hex(&out.bytes), hex(&mbytes), case.describe())); }
@@ -43,7 +43,7 @@ impl C03 {
                         let kind = if out.items.iter().filter(|i| matches!(i, EItem::U(_))).count() != model.iter().filter(|i| matches!(i, EItem::U(_))).count() { "unmappable-set" } else { "bytes" };
                         ev.violation("model-diff", &key(kind), format!("got [{}] expected [{}] | {}", fmt_eitems(&out.items), fmt_eitems(&model), case.describe()));
                     }
-                    for c in out.calls.iter() { if let Res::Unmappable(_) = c.res { ev.state(H::new().s(enc.output_encoding().name()).u(1).get(), || format!("{} Unmappable seen", enc.output_encoding().name())); } }
+                    for c in out.calls.iter() { if let Res::Unmappable(_) = c.res { ev.state(H::new().s(crate::c01::ofam(enc)).u(1).get(), || format!("{} Unmappable seen", crate::c01::ofam(enc))); } }
                 }
             }
         }
